@@ -146,6 +146,11 @@ type Spec struct {
 	Serial   bool // engine needs exclusive process (child processes etc.)
 	Workers  int  // 0 = default
 	MaxRSSMB int
+	// Extra, when set, replaces Run on every ExtraEvery-th run (a second, more
+	// expensive engine feeding the same oracles, e.g. closed-loop world runs)
+	Extra      RunFunc
+	ExtraEvery int
+	ExtraNote  string
 	// SelfCheckRuns overrides how many runs are repeated for the determinism self-check
 	SelfCheckRuns int
 }
